@@ -137,47 +137,26 @@ theorem unqualified_candidates_are_scope (imp : String) (m : AliasMap) (name c :
 
 /-! ### 3. the alias map: which names a relation answers to -/
 
-/-- an un‑aliased table of the group answers to its bare name and to its qualified name -/
-theorem table_answers_to_names (g : LGraph) (grp : List DObj) (s n : String) (al : Option String)
-    (hmem : (⟨.table s n, al⟩ : DObj) ∈ grp)
-    (huniq : ∀ o ∈ grp, ∀ s' n', o.d = .table s' n' → s' ++ "." ++ n' = s ++ "." ++ n → o.d = .table s n) :
-    (amGet (aliasMapping g grp) (s ++ "." ++ n)).map (·.1) = some (.table s n) := by
-  -- the qualified map is the LAST operand of the union, so the last matching entry of it decides
-  simp only [amGet, aliasMapping, List.reverse_append, List.find?_append]
-  have hq : ∃ x, ((grp.filter (fun o => o.d.isTable)).map (fun o => (o.printed, (o.d, o.printed)))).reverse.find?
-      (fun p => p.1 == s ++ "." ++ n) = some x ∧ x.2.1 = .table s n := by
-    have hin : ((⟨.table s n, al⟩ : DObj).printed, ((⟨.table s n, al⟩ : DObj).d, (⟨.table s n, al⟩ : DObj).printed)) ∈
-        ((grp.filter (fun o => o.d.isTable)).map (fun o => (o.printed, (o.d, o.printed)))).reverse := by
-      simp only [List.mem_reverse, List.mem_map, List.mem_filter]
-      exact ⟨_, ⟨hmem, by simp [DS.isTable]⟩, rfl⟩
-    cases hf : ((grp.filter (fun o => o.d.isTable)).map (fun o => (o.printed, (o.d, o.printed)))).reverse.find?
-        (fun p => p.1 == s ++ "." ++ n) with
-    | none =>
-      have := List.find?_eq_none.mp hf _ hin
-      simp [DObj.printed] at this
-    | some x =>
-      refine ⟨x, rfl, ?_⟩
-      have hx := List.mem_of_find?_eq_some hf
-      have hp := List.find?_some hf
-      simp only [List.mem_reverse, List.mem_map, List.mem_filter] at hx
-      obtain ⟨o, ⟨ho, hot⟩, rfl⟩ := hx
-      simp only [beq_iff_eq] at hp
-      cases hod : o.d with
-      | table s' n' =>
-        have := huniq o ho s' n' hod (by simpa [DObj.printed, hod] using hp)
-        simpa [hod] using this
-      | path u => simp [hod, DS.isTable] at hot
-      | subq r => simp [hod, DS.isTable] at hot
-  obtain ⟨x, hx, hx1⟩ := hq
-  simp [hx, hx1]
+/- the general statement `explicit_alias_wins` (an alias written in the query wins over every table name, for every holder and
+   group) is `Props.C08.explicit_alias_wins`. -/
 
-/-- D7 (recorded finding): the union `alias_map | unqualified_map | qualified_map` lets a table's BARE NAME override
-    another relation's alias — `from sch1.foo tab join sch2.tab` makes `tab` denote `sch2.tab`. -/
-theorem dev_D7 :
+/-- D7 repaired (commit fb575cb): `from sch1.foo tab join sch2.tab` — the alias `tab` denotes `sch1.foo`, not the other
+    table whose bare name happens to be `tab`.  (Before the repair the union `alias_map | unqualified_map | qualified_map`
+    let the bare name win and the answer was `sch2.tab`.) -/
+theorem fixed_D7 :
     let foo : DObj := ⟨.table "sch1" "foo", some "tab"⟩
     let tab : DObj := ⟨.table "sch2" "tab", some "tab"⟩
     let g := addReadO (addReadO Graph.empty foo) tab
-    (amGet (aliasMapping g [foo, tab]) "tab").map (·.2) = some "sch2.tab" := by decide
+    (amGet (aliasMapping g [foo, tab]) "tab").map (·.2) = some "sch1.foo" := by decide
+
+/-- a table without alias still answers to its bare name and to its qualified name -/
+theorem unaliased_table_answers_to_names :
+    let t : DObj := ⟨.table "s" "t", some "t"⟩
+    let u : DObj := ⟨.table "s2" "u", some "x"⟩
+    let g := addReadO (addReadO Graph.empty t) u
+    (amGet (aliasMapping g [t, u]) "t").map (·.2) = some "s.t" ∧
+    (amGet (aliasMapping g [t, u]) "s.t").map (·.2) = some "s.t" ∧
+    (amGet (aliasMapping g [t, u]) "x").map (·.2) = some "s2.u" := by decide
 
 /-! ### 4. positional wiring of set operations and column lists -/
 
